@@ -426,3 +426,105 @@ def chunk_never_empty(ctx, rule='C08-R2'):
                   'warning-only anomaly) is cropped to nothing, and find_slices() then dies with a pandas ValueError '
                   'instead of an AmpycloudError or a result',
                   instance='_cleanup_pdf: row removal followed by an emptiness refusal')
+
+
+# ---------------------------------------------------------------------------------------------- C08-R4
+_ACCESS_TAGS = ('mcall', 'attr', 'col', 'cols', 'sub', 'cell', 'rows', 'vals', 'index', 'columns', 'mask', 'poscol', 'acc')
+_TRANSPARENT = {'copy.deepcopy', 'copy.copy'}
+_NEEDS_A_FRAME = {'builtins.len', 'builtins.iter', 'builtins.list', 'builtins.sorted', 'builtins.sum', 'builtins.min',
+                  'builtins.max', 'numpy.unique', 'numpy.asarray', 'numpy.array', 'builtins.enumerate', 'builtins.zip'}
+
+
+def _origin(t):
+    """The object a reference reaches into, looking through (deep) copies."""
+    while True:
+        t = T.root(T.peel(t))
+        if tag(t) == 'call' and tag(t[1]) == 'g' and t[1][1] in _TRANSPARENT and t[2]:
+            t = t[2][0]
+            continue
+        if tag(t) == 'mcall':
+            t = t[1]
+            continue
+        return t
+
+
+def _uses_as_frame(v, raw):
+    """A sub-term that applies a method / attribute / subscript / len() to the raw input."""
+    for x in T.walk(v):
+        tg = tag(x)
+        if tg in _ACCESS_TAGS and _origin(x) == raw and x != raw:
+            return x
+        if tg == 'call' and tag(x[1]) == 'g' and x[1][1] in _NEEDS_A_FRAME and x[2] and _origin(x[2][0]) == raw:
+            return x
+    return None
+
+
+def raw_input_validated_first(ctx, rule='C08-R4'):
+    """Whatever the caller hands over (None, a dict, a list of rows ...) is refused with AmpycloudError by the type
+    test of check_data_consistency: until that test has passed, nothing may use the input as a DataFrame."""
+    fx = effects(ctx)
+    p = ctx.project
+    CHK = 'ampycloud.utils.utils.check_data_consistency'
+    n = 0
+    # (a) inside the validator: the isinstance refusal comes before any use of the argument
+    f = p.func(CHK, rule)
+    ctx.saw(f)
+    raw = ('p', f.params[0])
+    evs = fx.deep_events(CHK)
+
+    def is_type_refusal(e):
+        return e.kind == 'raise' and T.contains(e.guard, lambda x: tag(x) == 'call' and x[1] == ('g', 'builtins.isinstance')
+                                                and x[2] and _origin(x[2][0]) == raw
+                                                and T.contains(x[2][1], lambda y: y == ('g', 'pandas.DataFrame')))
+    refusals = [e for e in evs if is_type_refusal(e)]
+    ctx.check(bool(refusals) and all(_raised_class(e.value) == 'ampycloud.errors.AmpycloudError' for e in refusals[:1]),
+              rule, CHK, f.node.name, f.loc(),
+              'check_data_consistency does not refuse a non-DataFrame argument with AmpycloudError',
+              instance='check_data_consistency: isinstance(pdf, DataFrame) refusal')
+    n += 1
+    if refusals:
+        seq = refusals[0].seq
+        for e in evs:
+            if e.seq >= seq or e.guard == T.FALSE:
+                continue
+            for nm in ('value', 'call', 'target'):
+                v = getattr(e, nm)
+                hit = _uses_as_frame(v, raw) if v is not None else None
+                if hit is not None:
+                    ctx.violation(rule, CHK, e.node, e.loc(),
+                                  f'{T.show(hit, maxlen=120)} uses the argument as a DataFrame before its type has been '
+                                  'checked: a None / dict / list input fails with AttributeError or TypeError instead of '
+                                  'AmpycloudError', instance='check_data_consistency: nothing uses pdf before the type test')
+                    break
+    # (b) on the way to the validator: constructor and run() only pass the input along (or deep-copy it)
+    for q in ('ampycloud.data.AbstractChunk.__init__', 'ampycloud.core.run'):
+        f = p.func(q, rule)
+        ctx.saw(f)
+        if 'data' not in f.params:
+            raise AnalysisError(rule, f'{q} has no parameter named data')
+        raw = ('p', 'data')
+        evs = fx.deep_events(q)
+        gate = [e for e in evs if e.kind == 'call' and call_head(e) in (CHK, 'ampycloud.data.CeiloChunk') and
+                any(_origin(a) == raw for a in e.call[2])]
+        if not gate:
+            raise AnalysisError(rule, f'{q}: the input never reaches check_data_consistency / CeiloChunk')
+        seq = gate[0].seq
+        bad = None
+        for e in evs:
+            if e.seq >= seq or e.guard == T.FALSE:
+                continue
+            for nm in ('value', 'call', 'target', 'guard'):
+                v = getattr(e, nm)
+                hit = _uses_as_frame(v, raw) if v is not None else None
+                if hit is not None:
+                    bad = (e, hit)
+                    break
+            if bad:
+                break
+        n += 1
+        ctx.check(bad is None, rule, q, bad[0].node if bad else f.node.name, bad[0].loc() if bad else f.loc(),
+                  (f'{T.show(bad[1], maxlen=120)} uses the raw input as a DataFrame before check_data_consistency has '
+                   'tested its type: a None / dict / list input fails with AttributeError or TypeError instead of '
+                   'AmpycloudError') if bad else '',
+                  instance=f'{q.split(".")[-2]}.{q.split(".")[-1]}: the raw input is only passed along until validated')
+    ctx.floor(rule, 'validation-order obligations', n, 3)
